@@ -103,6 +103,13 @@ def build_unit(name, workdir):
     text = lower.emit_c(L, funs, u, harn)
     cfile = os.path.join(workdir, name + '.c')
     open(cfile, 'w').write(text)
+    # type lint: CBMC's C front end accepts implicit pointer<->integer conversions silently; gcc does not
+    lint = subprocess.run(['gcc', '-fsyntax-only', '-std=gnu11', '-include', os.path.join(ROOT, 'stubs', 'vs_lint.h'), '-I', os.path.join(ROOT, 'stubs'),
+                           '-Werror=int-conversion', '-Werror=incompatible-pointer-types', '-Werror=implicit-function-declaration',
+                           '-Wno-discarded-qualifiers', '-w', '-Werror=int-conversion', cfile], capture_output=True, text=True)
+    errs = [l for l in lint.stderr.split('\n') if ' error: ' in l]
+    if errs:
+        raise PipelineError('generated C for unit %s fails the type lint (lowering bug, not a violation):\n  ' % name + '\n  '.join(errs[:8]))
     # every loop of a function proved with loop contracts must have one
     return {'unit': u, 'cfile': cfile, 'L': L, 'funs': funs, 'dump_cmds': cmds, 'lower_s': time.time() - t0,
             'assumptions': sorted(L.assumptions), 'csha': hashlib.sha256(text.encode()).hexdigest()}
@@ -156,7 +163,9 @@ def run_proof(built, proof, workdir, extra_defs=(), trace=False):
     gi = ['goto-instrument', '--dfcc', 'h_' + name]
     if proof.get('enforce'):
         gi += ['--enforce-contract', proof['enforce']]
-    for r in list(proof.get('replace', [])) + [x for x in getattr(u, 'ALWAYS_REPLACE', []) if x not in proof.get('no_replace', [])]:
+    ctext = open(built['cfile']).read()
+    used = [x for x in getattr(u, 'ALWAYS_REPLACE', []) if x not in proof.get('no_replace', []) and ctext.count(x + '(') >= 2]
+    for r in list(proof.get('replace', [])) + used:
         gi += ['--replace-call-with-contract', r]
     if mode == 'contracts':
         gi += ['--apply-loop-contracts']
